@@ -188,7 +188,7 @@ func main() {
 				name := c.str("judge")
 				if jf, ok := judges[name]; ok {
 					sum.WithSpec++
-					if !jf(impl) {
+					if !jf(&c, impl) {
 						sum.JudgeFail++
 						if len(sum.Mismatches) < *maxMis {
 							sum.Mismatches = append(sum.Mismatches, Mismatch{c.ID, "judge", c.Cls, c.Tag, c.Do, impl, c.Model, "<judge:" + name + ">", c.Line})
